@@ -317,10 +317,10 @@ func RunMain(id, tier string, only int, seedOverride *int64) int {
 			continue
 		}
 		seenKey[v.Key] = true
-		if nrep >= 8 {
+		if nrep >= 40 {
 			continue
 		}
-		path := filepath.Join(VerifDir, "replays", fmt.Sprintf("%s-%d-%d.json", id, seed, nrep))
+		path := filepath.Join(replayDir(), fmt.Sprintf("%s-%d-%d.json", id, seed, nrep))
 		_ = os.MkdirAll(filepath.Dir(path), 0755)
 		rb, _ := json.MarshalIndent(map[string]any{"property": id, "tier": tier, "seed": seed, "index": v.Index, "key": v.Key, "what": v.What, "case": v.Case}, "", " ")
 		_ = os.WriteFile(path, rb, 0644)
@@ -373,8 +373,15 @@ func printCounters(t *ShardResult) {
 	fmt.Println("  observed:", strings.Join(parts, " "))
 }
 
+func replayDir() string {
+	if d := os.Getenv("VERIF_REPLAY_DIR"); d != "" {
+		return d
+	}
+	return filepath.Join(VerifDir, "replays")
+}
+
 func saveArtifact(id string, seed int64, name string, b []byte) {
-	dir := filepath.Join(VerifDir, "replays")
+	dir := replayDir()
 	_ = os.MkdirAll(dir, 0755)
 	if len(b) > 1<<20 {
 		b = b[len(b)-(1<<20):]
